@@ -52,9 +52,12 @@ pub enum Kind {
     Empty,
     Exec,
     CommandExec,
+    /// `command . ./dotf REDIRS`: the body is a sourced file, read through a descriptor the
+    /// shell opens for its own use (moved to >= 10)
+    Dot,
 }
 
-pub const ALL_KINDS: [Kind; 17] = [
+pub const ALL_KINDS: [Kind; 18] = [
     Kind::Colon,
     Kind::Snap,
     Kind::Echo,
@@ -72,6 +75,7 @@ pub const ALL_KINDS: [Kind; 17] = [
     Kind::Empty,
     Kind::Exec,
     Kind::CommandExec,
+    Kind::Dot,
 ];
 
 impl Kind {
@@ -94,13 +98,14 @@ impl Kind {
             Kind::Empty => "kind:empty-command",
             Kind::Exec => "kind:exec",
             Kind::CommandExec => "kind:command-exec",
+            Kind::Dot => "kind:dot-script-via-command",
         }
     }
     /// the command runs a body with `snap in`
     fn has_body(self) -> bool {
         matches!(
             self,
-            Kind::Func | Kind::FuncDef | Kind::Group | Kind::Subshell | Kind::If | Kind::For | Kind::While | Kind::Case | Kind::PipeIn
+            Kind::Func | Kind::FuncDef | Kind::Group | Kind::Subshell | Kind::If | Kind::For | Kind::While | Kind::Case | Kind::PipeIn | Kind::Dot
         )
     }
     fn has_probe(self) -> bool {
@@ -115,7 +120,7 @@ impl Kind {
     }
     /// XCU 2.8.1: "shall not exit"
     fn must_continue(self) -> bool {
-        matches!(self, Kind::Snap | Kind::Echo | Kind::Cat | Kind::External | Kind::Empty | Kind::CommandExec | Kind::PipeIn)
+        matches!(self, Kind::Snap | Kind::Echo | Kind::Cat | Kind::External | Kind::Empty | Kind::CommandExec | Kind::PipeIn | Kind::Dot)
     }
 }
 
@@ -451,6 +456,10 @@ fn build(c: &Case) -> Result<Plan, &'static str> {
         Kind::FuncDef => {
             head.push_str(&format!("fredir() {{ {body}; }} {all}\n{heres}"));
             "fredir".to_string()
+        }
+        Kind::Dot => {
+            head.push_str(&format!("cat >dotf <<'DOTEOF'\n{body}\nDOTEOF\n"));
+            simple("command . ./dotf")
         }
         Kind::Group => format!("{{ {body}; }} {all}"),
         Kind::Subshell => format!("( {body} ) {all}"),
